@@ -1,5 +1,6 @@
 import FpgoVerif.Proofs.C05StreamSet
 import FpgoVerif.Proofs.C05Twins
+import FpgoVerif.Proofs.C05Judge
 /-! Property theorems for C05 — set algebra laws of the implementation models the driver executes
     (`Model/C05Impl.lean`), for ALL inputs (any element type with decidable equality, any length,
     any arity), and agreement of the generic / interface{} models where they are separate.
@@ -493,6 +494,66 @@ example : ([(1, [1])] : GoMap Nat (List Nat)) ≠ [] ∧
     I.ssIsSupersetByKey [(1, [1])] (some [(2, [0]), (1, [])]) = false := by decide
 
 end StreamSetLaws
+
+/-! ## the oracle (`judge`) accepts what the models compute: the Bool checks of `Spec` hold for the
+    results of the implementation models (so a model/implementation agreement can never be flagged, and
+    on a disagreement the oracle compares the real result with the laws, not with the model) -/
+
+theorem C05_judge_accepts_intersection (as : List (List Nat)) (h : as ≠ []) :
+    ∃ r, intersection (some as) = .ok r ∧ Spec.interOK as r = true := by
+  cases as with
+  | nil => exact absurd rfl h
+  | cons a rest =>
+    obtain ⟨r, hr, hnd, hmem⟩ := C05_intersection_mem (a :: rest) (by simp)
+    refine ⟨r, hr, ?_⟩
+    have hr' := intersection_eq a rest
+    rw [hr] at hr'
+    injection hr' with hr'
+    simp only [Spec.interOK, Bool.and_eq_true, List.headD_cons]
+    refine ⟨⟨Spec.members_of _ _ _ (fun x => ?_), (Spec.nodup_iff r).2 hnd⟩, Spec.ordered_of a r _ hr'⟩
+    rw [hmem x]; simp
+
+theorem C05_judge_accepts_difference (a : List Nat) (rest : List (List Nat)) :
+    ∃ r, difference (some (a :: rest)) = .ok r ∧ Spec.diffOK (a :: rest) r = true := by
+  obtain ⟨r, hr, hnd, hmem⟩ := C05_difference_mem a rest
+  refine ⟨r, hr, ?_⟩
+  have hr' := difference_eq a rest
+  rw [hr] at hr'
+  injection hr' with hr'
+  simp only [Spec.diffOK, Bool.and_eq_true, List.headD_cons, List.drop_succ_cons, List.drop_zero]
+  refine ⟨⟨Spec.members_of _ _ _ (fun x => ?_), (Spec.nodup_iff r).2 hnd⟩, Spec.ordered_of a r _ hr'⟩
+  rw [hmem x]; simp
+
+theorem C05_judge_accepts_union (as : List (List Nat)) : Spec.unionOK as (union as) = true := by
+  simp only [Spec.unionOK, Bool.and_eq_true]
+  refine ⟨Spec.members_of _ _ _ (fun x => ?_), (Spec.nodup_iff _).2 (C05_union_nodup as)⟩
+  rw [C05_union_mem]; simp
+
+theorem C05_judge_accepts_distinct (a : List Nat) : Spec.distinctOK a (distinct a) = true := by
+  simp only [Spec.distinctOK, Bool.and_eq_true]
+  refine ⟨⟨Spec.members_of _ _ _ (fun x => ?_), (Spec.nodup_iff _).2 (C05_distinct_nodup a)⟩, ?_⟩
+  · rw [C05_distinct_mem]; simp
+  · apply Spec.ordered_of a _ (fun _ => true)
+    rw [distinct_eq]; symm; exact List.filter_eq_self.2 (by simp)
+
+theorem C05_judge_accepts_minus (a b : List Nat) : Spec.minusOK a b (minus a b) = true := by
+  simp only [Spec.minusOK]
+  refine Spec.members_of _ _ _ (fun x => ?_)
+  rw [C05_minus_mem]; simp
+
+theorem C05_judge_accepts_isSubset (a b : List Nat) (ha : a ≠ []) (hb : b ≠ []) :
+    Spec.subsetOK a b (isSubset a b) = true := by
+  simp only [Spec.subsetOK, beq_iff_eq]
+  have := C05_isSubset_iff a b ha hb
+  cases h : isSubset a b with
+  | true => symm; simpa using this.1 h
+  | false =>
+    symm
+    cases h2 : a.all (b.contains ·) with
+    | false => rfl
+    | true =>
+      have : isSubset a b = true := this.2 (by simpa using h2)
+      simp [h] at this
 
 /-! ## closing theorems over the regenerated twin table (`Gen/Twins.lean`, rebuilt from the repository
     on every run).  Identical code on the same comparable data gives identical answers (trusted: Go's
